@@ -572,6 +572,37 @@ def gen_prog(rng):
     return seq_of(setup + main)
 
 
+def gen_prog_directed(rng):
+    """directed shape (added after seeded change C16-s3 was missed): an outer for-in whose body calls a function that
+    leaves ITS OWN for-in by return (or runs it to completion / breaks) on a key that really exists, so a snapshot that is
+    not popped on that exit path shows up as extra visits of the outer loop"""
+    setup = []
+    keysets = []
+    for m in range(3):
+        ks = rng.sample(KEYPOOL, rng.randrange(1, 6))
+        keysets.append(ks)
+        if rng.random() < 0.3:
+            setup.append(("newarr", m))
+        for k in ks:
+            setup.append(("set", m, k, rng.randrange(1, 9)))
+    mo, mi = rng.randrange(3), rng.randrange(3)
+    xo, xi = 0, 1
+    leave = rng.choice([("ret",), ("ret",), ("ret",), ("brk",), ("cont",)])
+    inner_body = [("emit", xi), ("ifeq", xi, rng.choice(keysets[mi]), leave)]
+    if rng.random() < 0.4:
+        inner_body.insert(1, rng.choice([("delcur", mi, xi), ("set", mi, rng.choice(KEYPOOL), 1), ("del", mo, rng.choice(keysets[mo]))]))
+    fbody = ("forin", xi, mi, seq_of(inner_body))
+    if rng.random() < 0.3:
+        fbody = ("seq", fbody, ("forin", 2, rng.randrange(3), ("emit", 2)))
+    outer_body = [("emit", xo), ("call", fbody)]
+    if rng.random() < 0.5:
+        outer_body.append(rng.choice([("delcur", mo, xo), ("set", mo, rng.choice(KEYPOOL), 2), ("emit", xo)]))
+    main = [("forin", xo, mo, seq_of(outer_body))]
+    if rng.random() < 0.5:
+        main.append(("forin", 2, rng.randrange(3), ("emit", 2)))
+    return seq_of(setup + main)
+
+
 def tokens(s):
     t = s[0]
     if t in ("ifeq",):
@@ -781,7 +812,7 @@ def forin_stage(ctx, hawk, res):
     progs += FIXED_PROGS
     n = 1500 if ctx.tier == "quick" else 20000
     while n > 0:
-        p = gen_prog(rng)
+        p = gen_prog_directed(rng) if rng.random() < 0.25 else gen_prog(rng)
         assert well_scoped(p)
         try:
             py_ideal(p, budget=6000)     # nested loops that keep adding keys can blow up: keep programs small
